@@ -60,30 +60,31 @@ const (
 
 // ReqSpec is one request of a scenario.
 type ReqSpec struct {
-	Upload       int         `json:"upload"` // -1: GET without body
-	UnknownLen   bool        `json:"unknown_len,omitempty"`
-	BigHeader    int         `json:"big_header,omitempty"`
-	RespSize     int         `json:"resp"`
-	RespChunk    int         `json:"resp_chunk"`
-	RespPad      int         `json:"resp_pad,omitempty"` // pad length per DATA frame (0 = unpadded)
-	EndOnHeaders bool        `json:"end_on_headers,omitempty"`
-	SepEnd       bool        `json:"sep_end,omitempty"`    // END_STREAM on a separate empty DATA frame
-	RespEarly    bool        `json:"resp_early,omitempty"` // respond before the upload finished
-	NoCL         bool        `json:"no_cl,omitempty"`
-	PadOnly      int         `json:"pad_only,omitempty"`    // that many padding-only DATA frames (no data bytes) before the body
-	SlowClose    int         `json:"slow_close,omitempty"`  // k+1: the request body's Close returns only when request k is finished
-	AfterClose   int         `json:"after_close,omitempty"` // k+1: start when the body of request k has been asked to close
-	AfterDone    int         `json:"after_done,omitempty"`  // k+1: start when request k is finished
-	Gated        bool        `json:"gated,omitempty"`       // the request starts when the peer script says so (action start-req)
-	AckBatch     [][2]uint32 `json:"ack_batch,omitempty"`   // a SETTINGS frame written in ONE write with the header-only response
-	Status       int         `json:"status,omitempty"`      // response status (0 = 200); >= 300 with RespEarly makes the client give the upload up
-	CLShort      int         `json:"cl_short,omitempty"`    // declared Content-Length is that much smaller than the body sent
-	App          string      `json:"app"`
-	AppArg       int         `json:"app_arg,omitempty"`    // prefix / cancel point / chunk size
-	RstUpload    int         `json:"rst_upload,omitempty"` // peer RST_STREAM after that many upload bytes (>0)
-	RstDownload  int         `json:"rst_download,omitempty"`
-	StartDelayUs int         `json:"start_delay_us,omitempty"`
-	HoldRead     bool        `json:"hold_read,omitempty"` // app waits until the peer is window-blocked / done (S3)
+	Upload        int         `json:"upload"` // -1: GET without body
+	UnknownLen    bool        `json:"unknown_len,omitempty"`
+	BigHeader     int         `json:"big_header,omitempty"`
+	RespSize      int         `json:"resp"`
+	RespChunk     int         `json:"resp_chunk"`
+	RespPad       int         `json:"resp_pad,omitempty"` // pad length per DATA frame (0 = unpadded)
+	EndOnHeaders  bool        `json:"end_on_headers,omitempty"`
+	SepEnd        bool        `json:"sep_end,omitempty"`    // END_STREAM on a separate empty DATA frame
+	RespEarly     bool        `json:"resp_early,omitempty"` // respond before the upload finished
+	NoCL          bool        `json:"no_cl,omitempty"`
+	PadOnly       int         `json:"pad_only,omitempty"`        // that many padding-only DATA frames (no data bytes) before the body
+	RespWaitClose int         `json:"resp_wait_close,omitempty"` // after that many response bytes the peer continues only once the request body's Close was called
+	SlowClose     int         `json:"slow_close,omitempty"`      // k+1: the request body's Close returns only when request k is finished
+	AfterClose    int         `json:"after_close,omitempty"`     // k+1: start when the body of request k has been asked to close
+	AfterDone     int         `json:"after_done,omitempty"`      // k+1: start when request k is finished
+	Gated         bool        `json:"gated,omitempty"`           // the request starts when the peer script says so (action start-req)
+	AckBatch      [][2]uint32 `json:"ack_batch,omitempty"`       // a SETTINGS frame written in ONE write with the header-only response
+	Status        int         `json:"status,omitempty"`          // response status (0 = 200); >= 300 with RespEarly makes the client give the upload up
+	CLShort       int         `json:"cl_short,omitempty"`        // declared Content-Length is that much smaller than the body sent
+	App           string      `json:"app"`
+	AppArg        int         `json:"app_arg,omitempty"`    // prefix / cancel point / chunk size
+	RstUpload     int         `json:"rst_upload,omitempty"` // peer RST_STREAM after that many upload bytes (>0)
+	RstDownload   int         `json:"rst_download,omitempty"`
+	StartDelayUs  int         `json:"start_delay_us,omitempty"`
+	HoldRead      bool        `json:"hold_read,omitempty"` // app waits until the peer is window-blocked / done (S3)
 }
 
 // Action is one scripted peer action; it fires once the previous one has fired
@@ -756,6 +757,19 @@ func specialScenarios(start int, seed uint64, thorough bool) []*Scenario {
 				ReqSpec{Upload: 1000, UnknownLen: true, BigHeader: 4096, RespSize: 1, RespChunk: 16384, App: appReadAll, AfterDone: 4, SlowClose: 7},
 				ReqSpec{Upload: -1, RespSize: 100, RespChunk: 16384, App: appReadAll, AfterClose: 6},
 				ReqSpec{Upload: -1, RespSize: 100, RespChunk: 16384, App: appReadAll, AfterDone: 6})
+		}
+		add(sc)
+	}
+	// S17: the application closes a response body while the request's cleanup is held up in a slow
+	// Request.Body.Close: the stream stays registered, no RST_STREAM is out yet, the peer keeps
+	// sending DATA - all of it is discarded and must come back as connection credit.
+	for _, chunk := range []int{3000, 16384} {
+		sc := defaultScenario(0, seed, fmt.Sprintf("S17-discard-while-body-close-hangs-%d", chunk))
+		sc.PeerSettings = [][2]uint32{{3, 100}}
+		sc.Reqs = []ReqSpec{
+			{Upload: 1000, UnknownLen: true, SlowClose: 2, RespSize: 300000, RespChunk: chunk, RespPad: 7, RespWaitClose: 6000, App: appPrefixClose, AppArg: 3000},
+			{Upload: -1, RespSize: 200000, RespChunk: 16384, App: appReadSlow, AppArg: 1000, AfterClose: 1},
+			{Upload: -1, RespSize: 10, RespChunk: 16384, App: appReadAll, AfterDone: 1},
 		}
 		add(sc)
 	}
